@@ -6,6 +6,7 @@ json / dobs / pickle / jackknife round trips, covariance inputs, malformed const
 operations) is executed and the representation invariant is checked on *every* object returned and, after every
 step, on every pool object (operands must stay well-formed, also after an interruption).
 """
+import os
 import pickle
 import random
 
@@ -53,13 +54,13 @@ def gen_plan(rng, tier):
         elif r < 0.52:
             op.update({"op": "merge", "lay": rng.randrange(2), "seed": rng.getrandbits(30), "R": rng.choice([2, 3])})
         elif r < 0.58:
-            op.update({"op": "fit", "kind": rng.choice(["least_squares", "fit_lin", "fit_lin_xobs", "total_least_squares", "correlated", "prior"]), "npts": rng.randint(3, 5)})
+            op.update({"op": "fit", "kind": rng.choice(["least_squares", "fit_lin", "fit_lin_xobs", "total_least_squares", "correlated", "prior", "combined", "corr_fit", "plateau"]), "npts": rng.randint(3, 5)})
         elif r < 0.61:
             op.update({"op": "root"})
         elif r < 0.64:
             op.update({"op": "quad", "limits_obs": rng.random() < 0.5})
         elif r < 0.76:
-            op.update({"op": "roundtrip", "via": rng.choice(["json", "json", "pickle", "dobs", "jackknife", "json_list", "json_corr"])})
+            op.update({"op": "roundtrip", "via": rng.choice(["json", "json", "pickle", "dobs", "jackknife", "json_list", "json_corr", "bootstrap", "json_array", "json_dict_file"])})
         elif r < 0.80:
             op.update({"op": "cov_obs", "dim": rng.randint(1, 3), "seed": rng.getrandbits(30), "name": rng.choice(["covA", "sys_b", "Zc"])})
         elif r < 0.85:
@@ -193,6 +194,10 @@ def execute(plan, ctx):
                 else:
                     pool[op["dst"] % len(pool)] = res
     ctx.notes["pool"] = len(pool)
+
+
+def oi_seed(op):
+    return (op["i"], op["j"], op["dst"])
 
 
 def obs_only(x, pe):
@@ -349,6 +354,18 @@ def step(ctx, op, pool, a, b, plan, pe):
                 out = pe.fits.least_squares(xs, ys, lambda p, x: p[0] + p[1] * x, silent=True, correlated_fit=True).fit_parameters
             elif fk == "prior":
                 out = pe.fits.least_squares(xs, ys, lambda p, x: p[0] + p[1] * x, priors=["1.0(5.0)", "0.0(9.0)"], silent=True).fit_parameters
+            elif fk == "combined":
+                h = max(2, len(xs) // 2)
+                out = pe.fits.least_squares({"a": xs[:h], "b": xs[h:] or xs[:1]}, {"a": ys[:h], "b": ys[h:] or ys[:1]},
+                                            {"a": lambda p, x: p[0] + p[1] * x, "b": lambda p, x: p[0] + p[2] * x}, silent=True).fit_parameters
+            elif fk in ("corr_fit", "plateau"):
+                if len(set(tuple(y.names) for y in ys)) != 1 or len(set(repr(y.idl) for y in ys)) != 1:
+                    return []
+                cr = pe.Corr(ys)
+                if fk == "corr_fit":
+                    out = cr.fit(lambda p, x: p[0] + p[1] * x, silent=True).fit_parameters
+                else:
+                    out = [cr.plateau([0, len(ys) - 1], method="avg")]
             elif fk == "fit_lin":
                 out = pe.fits.fit_lin(xs, ys)
             else:
@@ -406,6 +423,20 @@ def step(ctx, op, pool, a, b, plan, pe):
             elif via == "json_corr":
                 c = pe.Corr([o, o * 2.0])
                 res = list(x[0] for x in pe.input.json.import_json_string(pe.input.json.create_json_string(c), verbose=False).content)
+            elif via == "json_array":
+                arr = np.array([[o, o + 1.0], [2.0 * o, o * o]], dtype=object)
+                res = list(pe.input.json.import_json_string(pe.input.json.create_json_string(arr), verbose=False).ravel())
+            elif via == "json_dict_file":
+                fn = os.path.join(ctx.scratch, "c04_dict")
+                pe.input.json.dump_dict_to_json({"a": o, 1: [o, 2.0 * o], "n": {"x": np.array([o, -o], dtype=object)}}, fn)
+                back = pe.input.json.load_json_dict(fn, verbose=False)
+                res = [back["a"]] + list(back["1"]) + list(back["n"]["x"])
+            elif via == "bootstrap":
+                if len(o.names) != 1 or o.cov_names or o.N > 40:
+                    return []
+                rr_ = random.Random(kernel.H("bt", oi_seed(op)))
+                R_ = np.array([[(k_ + b_) % o.N if rr_.random() < 0.8 else rr_.randrange(o.N) for k_ in range(o.N)] for b_ in range(o.N + 5)], dtype=np.int64)
+                res = pe.import_bootstrap(o.export_bootstrap(o.N + 5, random_numbers=R_), o.names[0], R_)
             elif via == "pickle":
                 res = pickle.loads(pickle.dumps(o))
             elif via == "dobs":
@@ -417,7 +448,7 @@ def step(ctx, op, pool, a, b, plan, pe):
                     return []
                 res = pe.import_jackknife(o.export_jackknife(), o.names[0], idl=[o.idl[o.names[0]]])
         except Exception as e:
-            import traceback, os
+            import traceback
             if os.environ.get("VSIM_TB"): traceback.print_exc()
             ctx.violation("c04.no_result", "roundtrip." + via, "-", "raised %s: %s" % (type(e).__name__, str(e)[:160]))
             return []
